@@ -19,7 +19,7 @@ RULE = ('Exhaustive part: all histories of length <= 4 over {fetchone, fetchmany
         'result sizes {0,1,3} (2340 histories), every observation (returned rows, rownumber, rowcount, description) compared '
         'with the sequential model after each call. Random part: histories of 1-25 calls over {execute (sizes 0-12), fetchone, '
         'fetchmany(n) n in 0..5, fetchmany() with arraysize in {1,2,5}, fetchall, full and partial iteration, attribute reads, '
-        'description indexing/slicing/iteration/equality}, on cursors created before/after other cursors of one connection. '
+        'description indexing/slicing/iteration/equality}, on cursors created with Connection.cursor() and returned by Connection.execute() before/after other cursors of one connection (all cursors are re-observed after every Connection.execute()). '
         'A history is distinct by its call sequence and result sizes; non-trivial when it delivers rows through >= 2 different calls.')
 ASSUMPTIONS = [
     'iteration may be consuming (DB-API/sqlite) or non-consuming (yields the not-yet-fetched rows, leaves the cursor untouched); '
@@ -196,6 +196,16 @@ def run_history(ctx, history, label, lite=None):
                 sq[cid] = None
                 observe(cid, where)
                 continue
+            if kind == 'cexec':
+                # Connection.execute(): a NEW cursor on which the statement has been executed; earlier cursors are unaffected
+                size = op[2]
+                cursors[cid] = conn.execute(stmt_for(size))
+                models[cid] = ModelCursor()
+                models[cid].execute(table_rows[:size], ['k', 's'], [int, str])
+                sq[cid] = None
+                for other in cursors:
+                    observe(other, where + f' (cursor {other})')
+                continue
             cur, mc = cursors[cid], models[cid]
             if kind == 'exec':
                 size = op[2]
@@ -327,9 +337,16 @@ def run(ctx):
         for _ in range(rng.randint(1, 25)):
             r = rng.random()
             cid = rng.randrange(ncur)
-            if r < 0.08 and ncur < 3:
+            if r < 0.05 and ncur < 3:
                 hist.append(('new', ncur))
                 ncur += 1
+            elif r < 0.10:
+                # a cursor returned by Connection.execute(), new or replacing the handle cid
+                if ncur < 4 and rng.random() < 0.6:
+                    hist.append(('cexec', ncur, rng.choice([0, 1, 3, 5, 8])))
+                    ncur += 1
+                else:
+                    hist.append(('cexec', cid, rng.choice([0, 1, 3, 5, 8])))
             elif r < 0.25:
                 hist.append(('exec', cid, rng.choice([0, 1, 2, 3, 5, 8, 12])))
             elif r < 0.45:
